@@ -166,7 +166,10 @@ def pair_job(name, panel, method, tname, sym, elig, seed=0, twin=False,
             case=dict(kind='pair', panel=panel, seed=seed, method=method,
                       transform=tname, elig=elig, scale_pow=scale_pow,
                       conc=search.apply_concrete(None, vals)),
-            twin=twin, detail=bad[:3]))
+            twin=twin, detail=bad[:3],
+            # exact-real reasoning can place a budget bound between a float
+            # budget and its exactly scaled twin (they differ by an ulp)
+            band_ok=('scale' in tname and 'budget' in sym)))
     if len(js.r['samples']) < 2:
       js.r['samples'].append(dict(transform=tname, method=method, symbolic=list(
           sym), designs=[(sorted(d['T']), sorted(d['C'])) for d in _summ(A)]
